@@ -327,6 +327,13 @@ func cmdC05Tree(args []string) error {
 	for k := *first; k < *first+*n; k++ {
 		rng := newRand(int64(5000 + k))
 		build, desc := genBuild(rng, k)
+		// a file larger than the aggregator's limit (MaxWoundSize = 64 blocks) with a run of consecutive damaged
+		// blocks longer than it: the aggregate fills up, is handed over, and the next block starts a new one
+		longRun := k%6 == 5
+		if longRun {
+			build.Files["long/run.bin"] = randBytes(rng, (66+rng.Intn(75))*BS+rng.Intn(BS))
+			desc += ",long-run"
+		}
 		root, err := os.MkdirTemp("", "c05t-")
 		if err != nil {
 			return err
@@ -347,6 +354,20 @@ func cmdC05Tree(args []string) error {
 		line.Damage = applyDamage(rng, dir, si.Container, build)
 		if line.Damage == nil {
 			line.Damage = []string{}
+		}
+		if longRun {
+			p := filepath.Join(dir, "long", "run.bin")
+			if b, err := os.ReadFile(p); err == nil && len(b) >= 66*BS {
+				nb := (len(b) + BS - 1) / BS
+				start := rng.Intn(nb - 65)
+				runLen := 65 + rng.Intn(nb-start-64)
+				for blk := start; blk < start+runLen && blk*BS < len(b); blk++ {
+					o := blk*BS + rng.Intn(minInt(BS, len(b)-blk*BS))
+					b[o] ^= 0x20
+				}
+				os.WriteFile(p, b, 0644)
+				line.Damage = append(line.Damage, fmt.Sprintf("long/run.bin: one byte flipped in each of blocks %d..%d of %d", start, start+runLen-1, nb))
+			}
 		}
 		// ground truth by comparison
 		for fi, f := range si.Container.Files {
@@ -422,4 +443,84 @@ var _ = bytes.Equal
 func init() {
 	register("c05-unit", "(signed, actual) pairs of one file at unit scale through the real Validate", cmdC05Unit)
 	register("c05-tree", "damage sequences on generated builds through the real Validate", cmdC05Tree)
+}
+
+// ---------------------------------------------------------------- aggregator: model -> code
+
+type aggW struct {
+	Kind  string `json:"kind"`
+	Start int64  `json:"start"`
+	End   int64  `json:"end"`
+}
+
+type aggLine struct {
+	Case int    `json:"case"`
+	MaxW int64  `json:"maxw"`
+	InW  []aggW `json:"inw"`
+	OutW []aggW `json:"outw"`
+}
+
+// c05-agg: every sequence of per-block wounds (FILE / CLOSED_FILE, optionally with a missing block in between) of
+// up to N blocks of B bytes through the real pwr.AggregateWounds, for every aggregate limit 1..N*B+1.
+func cmdC05Agg(args []string) error {
+	fs := flag.NewFlagSet("c05-agg", flag.ExitOnError)
+	nblocks := fs.Int("blocks", 6, "max blocks")
+	bsz := fs.Int64("b", 2, "bytes per block")
+	out := fs.String("out", "c05a.ndjson", "trace output")
+	fs.Parse(args)
+	w, err := newNDJSON(*out)
+	if err != nil {
+		return err
+	}
+	id := 0
+	for n := 0; n <= *nblocks; n++ {
+		// per block: 0 = FILE wound, 1 = CLOSED_FILE (healthy), 2 = no wound at all for this block (gap)
+		total := 1
+		for i := 0; i < n; i++ {
+			total *= 3
+		}
+		for code := 0; code < total; code++ {
+			in := []aggW{}
+			c := code
+			for i := 0; i < n; i++ {
+				switch c % 3 {
+				case 0:
+					in = append(in, aggW{"FILE", int64(i) * *bsz, int64(i+1) * *bsz})
+				case 1:
+					in = append(in, aggW{"CLOSED", int64(i) * *bsz, int64(i+1) * *bsz})
+				}
+				c /= 3
+			}
+			for maxw := int64(1); maxw <= int64(*nblocks)**bsz+1; maxw++ {
+				outCh := make(chan *pwr.Wound, 64)
+				inCh := pwr.AggregateWounds(outCh, maxw)
+				for _, x := range in {
+					k := pwr.WoundKind_FILE
+					if x.Kind == "CLOSED" {
+						k = pwr.WoundKind_CLOSED_FILE
+					}
+					inCh <- &pwr.Wound{Kind: k, Index: 0, Start: x.Start, End: x.End}
+				}
+				close(inCh)
+				line := aggLine{Case: id, MaxW: maxw, InW: in, OutW: []aggW{}}
+				for ow := range outCh {
+					k := "FILE"
+					if ow.Kind == pwr.WoundKind_CLOSED_FILE {
+						k = "CLOSED"
+					} else if ow.Kind != pwr.WoundKind_FILE {
+						k = ow.Kind.String()
+					}
+					line.OutW = append(line.OutW, aggW{k, ow.Start, ow.End})
+				}
+				w.emit(line)
+				id++
+			}
+		}
+	}
+	fmt.Printf("{\"lines\":%d}\n", w.n)
+	return w.close()
+}
+
+func init() {
+	register("c05-agg", "every small wound sequence through the real AggregateWounds (model -> code)", cmdC05Agg)
 }
